@@ -68,7 +68,7 @@ def _cases(tier, seed):
             for adjust in ("spacing", "region"):
                 if "shape" in spec and adjust == "region":
                     continue
-                for form in ("1d", "2d", "2d+extra", "2dF", "int", "int_e"):
+                for form in ("1d", "2d", "2d+extra", "2dF", "int", "int_e", "2d_stagger"):
                     for region in REGIONS:
                         yield dict(frame=fr, spec=spec, adjust=adjust, form=form, region=region, given=True)
                     if (form not in ("1d",) and tier == "quick") or form in ("int", "int_e"):
@@ -154,10 +154,19 @@ def run(case, rec):
     north = np.array([p[1] * sc + off for p in cloud])
     region = [w * sc + off, e * sc + off, s * sc + off, n * sc + off]
     form = case["form"]
+    if form == "2d_stagger":
+        # a grid whose interior rows / columns are displaced (alternating flight-line directions, a staggered grid): a 2-D array that is
+        # NOT a meshgrid although its first and last rows and columns look like one (seed C08-13)
+        g_e, g_n = np.meshgrid(np.array(es) * sc + off, np.array(ns) * sc + off)
+        if g_e.shape[0] >= 3:
+            g_e[1:-1:2, :] += 0.25 * sc
+        if g_e.shape[1] >= 3:
+            g_n[:, 1:-1:2] += 0.25 * sc
+        east, north = g_e, g_n
     # points a small fraction of a block away from every internal block edge (seed C08-7: a "tie" tolerance when breaking ties
     # between the two nearest block centres); only when the layout is known beforehand
     guard = (0, 0)
-    if case["given"] and e > w and n > s:
+    if case["given"] and e > w and n > s and form != "2d_stagger":
         lay = None
         if "shape" in spec:
             lay = (spec["shape"][1], spec["shape"][0], list(region))
